@@ -277,6 +277,31 @@ func runC01(e *Env) {
 	e.R.AddPart(ev.Part{Name: "key-change-histories", Enumerated: "all histories of length <= 4 over {chord, rest} x {-, Cb, F#m, A}, with and without --key E, probe chord appended; through the CLI for length <= 2 (quick) / <= 3 (thorough)", Executions: nh, Exhaustive: true})
 	e.R.Sample(map[string]any{"part": "key-change-histories", "history": "[rest key=Cb][chord][chord key=F#m][rest] + probe, --key E"})
 
+	// symbol sequences: every ordered pair of look-ups as [A B A B] in one document (a dictionary that
+	// shares state between look-ups shows only when a sibling symbol is resolved in between)
+	type sp2 struct{ a, b int }
+	var pairs []sp2
+	for a := range lookups {
+		for b := range lookups {
+			pairs = append(pairs, sp2{a, b})
+		}
+	}
+	mc.ParFor(len(pairs), func(i int) {
+		pr := pairs[i]
+		c := playCase{Path: "lib"}
+		for n, s := range []string{lookups[pr.a], lookups[pr.b], lookups[pr.a], lookups[pr.b]} {
+			c.Insts = append(c.Insts, refplay.Inst{Chord: &refplay.Chord{Degree: iv([]string{"1", "5", "b3", "4"}[n]), Symbol: s}, Values: one()})
+		}
+		c01Doc(e, m, &c)
+		e.R.Transition(4)
+		if i%7 == 0 || e.Thorough {
+			cc := c
+			cc.Path = "cli"
+			c01Doc(e, m, &cc)
+		}
+	})
+	e.R.AddPart(ev.Part{Name: "symbol-sequences", Enumerated: "every ordered pair (A, B) of the 46 look-ups as the document [A B A B]; in-process all, real binary every 7th (quick) / all (thorough)", Executions: int64(len(pairs)), Exhaustive: true})
+
 	// (c) CLI slice for the glue in package main
 	cliDegrees := []string{"1", "b3", "#4", "5", "9"}
 	cliBass := []*theory.Interval{nil, ivp("3"), ivp("b7")}
